@@ -1059,6 +1059,12 @@ where
             }
         }
         job_futures.fold((), |_, _| future::ready(())).await;
+        if !server.is_running() && !server.has_token() {
+            // As on the ordinary way out (below): the exit of our last job
+            // may have been paid for by a cheat byte, and ending with no
+            // token would add one to the system.
+            let _ = server.ensure_token_or_cheat("exit", &mut cheat).await;
+        }
         return Err(e);
     }
     // TODO(maybe): Use !job_futures.is_empty() instead of server.is_running() in
